@@ -41,7 +41,7 @@ EXPLANATION = (
     "state) before the call-out that hands it out (intn/offset-advanced-before-callout, netstring/state-consumed-before-callout one helper "
     "level deep, the LineReceiver split/swap rules). Evaluated but only reported as notes, being outside the statement or not holding today: "
     "handlers that call dataReceived or raise on the other receivers. IntNStringReceiver with pauseProducing() + immediate resumeProducing() "
-    "inside the handler duplicates messages today (known finding F16p, armed as intn/pause-resume-inside-handler). "
+    "inside the handler used to duplicate messages (finding F16p, fixed in 5bfefbe; armed as intn/pause-resume-inside-handler). "
     "Not decided: invariance for all streams "
     "(only the sample streams are enumerated)."
     " METHODS per clause: exact limits = finite-exhaustive (branch decisions along the CFG at limit-1/limit/limit+1 with the checked argument that the measured "
@@ -1114,7 +1114,7 @@ def _reentrancy(ctx):
     armed = {("line", "reenter"): "line/exactly-once-under-reentrancy",
              ("line", "pause-resume-now"): "line/pause-resume-inside-handler", ("line", "pause-resume-later"): "line/pause-resume-inside-handler",
              ("intn", "pause-resume-later"): "intn/pause-inside-handler-resume-later",
-             ("intn", "pause-resume-now"): "intn/pause-resume-inside-handler"}     # fails today: finding F16p
+             ("intn", "pause-resume-now"): "intn/pause-resume-inside-handler"}     # finding F16p, fixed in 5bfefbe
     describe = {"reenter": "the handler of the first message calls dataReceived with the following bytes",
                 "raise": "the handler of the first message raises once, the following bytes are delivered afterwards",
                 "pause-resume-now": "the handler of the first message calls pauseProducing() and at once resumeProducing()",
@@ -1259,6 +1259,18 @@ MUTANTS = [
            "        self._buffer, *lines = (self._buffer + data).split(self.delimiter)\n        for line in lines:\n", expect_rule="line-only/"),
     Mutant("intn-pause-tested-on-entry-only", B, "        while len(alldata) >= (currentOffset + prefixLength) and not self.paused:",
            "        if self.paused:\n            return\n        while len(alldata) >= (currentOffset + prefixLength):", expect_rule="intn/pause-honoured"),
+    Mutant("F16p-reverted-nested-run-restarts-at-zero", B,
+           "        # Normally zero; it is not when we are called again from inside\n        # stringReceived (for example by resumeProducing), while the strings\n"
+           "        # before that offset have already been delivered.\n        currentOffset = self._compatibilityOffset\n", "        currentOffset = 0\n",
+           more=[(B, "            if self._unprocessed is not alldata:\n                # dataReceived ran again while the string was being handled\n"
+                     "                # and has consumed part of the buffer: carry on from where it\n                # stopped instead of delivering those strings a second time.\n"
+                     "                alldata = self._unprocessed\n                currentOffset = self._compatibilityOffset\n\n", "")],
+           expect_rule="intn/pause-resume-inside-handler"),
+    Mutant("F16p-half-reverted-outer-loop-not-resynchronised", B,
+           "            if self._unprocessed is not alldata:\n                # dataReceived ran again while the string was being handled\n"
+           "                # and has consumed part of the buffer: carry on from where it\n                # stopped instead of delivering those strings a second time.\n"
+           "                alldata = self._unprocessed\n                currentOffset = self._compatibilityOffset\n\n", "",
+           expect_rule="intn/pause-resume-inside-handler"),
     Mutant("line-only-new-before-old", B, "        lines = (self._buffer + data).split(self.delimiter)", "        lines = (data + self._buffer).split(self.delimiter)",
            expect_rule="line-only/segmentation-invariant"),
 ]
@@ -1281,10 +1293,9 @@ SILENT = [
            "        self._state = self._PARSING_LENGTH\n        self._checkForTrailingComma()\n        self._processPayload()\n"),
     Silent("netstring-callout-inlined", B, "        self._state = self._PARSING_LENGTH\n        self._processPayload()\n",
            "        self._state = self._PARSING_LENGTH\n        self.stringReceived(self._payload.getvalue()[:-1])\n"),
-    Silent("F16p-repaired-intn-resyncs-with-its-buffer-around-the-callout", B,
-           "            currentOffset = messageEnd\n            self._compatibilityOffset = currentOffset\n            self.stringReceived(packet)\n",
-           "            currentOffset = messageEnd\n            self._unprocessed = alldata[currentOffset:]\n            self._compatibilityOffset = 0\n"
-           "            self.stringReceived(packet)\n            alldata = self._unprocessed\n            currentOffset = 0\n"),
+    Silent("F16p-fix-respelled-with-a-named-flag", B,
+           "            if self._unprocessed is not alldata:\n                # dataReceived ran again while the string was being handled\n",
+           "            nestedRun = alldata is not self._unprocessed\n            if nestedRun:\n                # dataReceived ran again while the string was being handled\n"),
     Silent("line-only-starred-unpacking", B, "        lines = (self._buffer + data).split(self.delimiter)\n        self._buffer = lines.pop(-1)\n        for line in lines:\n",
            "        joined = self._buffer + data\n        *whole, self._buffer = joined.split(self.delimiter)\n        for line in whole:\n"),
     Silent("line-only-last-piece-by-index", B, "        lines = (self._buffer + data).split(self.delimiter)\n        self._buffer = lines.pop(-1)\n        for line in lines:\n",
